@@ -541,6 +541,43 @@ func jobTriples(c *rt.Ctx, prop string, zip bool) {
 			}
 		}
 	}
+	// crossed histories: an honest verification under K1, then a triple under K2 = K1 xor mask whose
+	// signature was made with K1's secret scalar over the hash of K2's bytes (it satisfies the equation
+	// exactly if the verifier takes K1's decompressed point for K2), and the honest one again. Masks:
+	// every single bit, every value of byte 0 and of byte 31. A table of decompressed keys indexed or
+	// tagged by PART of the key would take one for the other.
+	c.Require("crossed-history")
+	for vi, vs := range []variantSpec{vPure, vCtx} {
+		seedIx := 9300 + vi
+		a1, _ := ref.ExpandSeed(seedOf(seedIx))
+		honest := honestTriple(seedIx, msgOf(1, vs), vs)
+		var masks [][2]int
+		for b := 0; b < 256; b++ {
+			masks = append(masks, [2]int{b / 8, 1 << uint(b%8)})
+		}
+		for v := 1; v < 256; v++ {
+			masks = append(masks, [2]int{0, v}, [2]int{31, v})
+		}
+		for mi, m := range masks {
+			if !c.Take() {
+				continue
+			}
+			c.Class("crossed-history")
+			c.Distinct(fmt.Sprintf("crossed-hist %d %d", vi, mi), true)
+			k2 := append([]byte{}, honest.key...)
+			k2[m[0]] ^= byte(m[1])
+			cross := crossTriple(a1, k2, honest.msg, honest.msg, int64(mi), vs)
+			compareTriple(c, prop, honest, vs, zip, "crossed-history-honest-first", nil)
+			compareTriple(c, prop, cross, vs, zip, "crossed-history-crossed", nil)
+			compareTriple(c, prop, honest, vs, zip, "crossed-history-honest-after", nil)
+			// and the other way round: the crossed key seen first
+			k3 := append([]byte{}, k2...)
+			k3[(m[0]+1)%32] ^= 0x04
+			cross3 := crossTriple(a1, k3, honest.msg, honest.msg, int64(mi)+1000, vs)
+			compareTriple(c, prop, cross3, vs, zip, "crossed-history-crossed-first", nil)
+			compareTriple(c, prop, honest, vs, zip, "crossed-history-honest-last", nil)
+		}
+	}
 	// dense message lengths: EVERY length 0..8320 (C05: every 4th) and windows around 16384, 32768, 65536
 	// under pure, a 1-byte and a 255-byte context: the honest signature, the message extended by one
 	// byte / by 32 bytes, shortened by one byte, its last and first byte changed - alone and (every 4th
@@ -566,8 +603,25 @@ func jobTriples(c *rt.Ctx, prop string, zip bool) {
 			dl = append(dl, l)
 		}
 	}
+	// very long messages (as C02): multiples of 2^18 up to 8 MiB (thorough 24 MiB) and round numbers
+	if c.Config == "default" || c.Config == "" || c.Thorough() {
+		top := 32
+		if c.Thorough() {
+			top = 96
+		}
+		for m := 1; m <= top; m += step {
+			dl = append(dl, m<<18)
+			if m%4 == 0 {
+				dl = append(dl, m<<18-1, m<<18+1)
+			}
+		}
+		dl = append(dl, 1000000, 4000000, 5000000, 3<<19, 3<<20, 5<<20, 7<<19)
+	}
 	for li, l := range dl {
 		for vi, vs := range []variantSpec{vPure, vCtx, {ref.Ctx, strings.Repeat("k", 255)}} {
+			if l > 1<<17 && vi > 0 && (li+vi)%3 != 0 && !c.Thorough() {
+				continue
+			}
 			if !c.Take() {
 				continue
 			}
@@ -589,6 +643,16 @@ func jobTriples(c *rt.Ctx, prop string, zip bool) {
 				compareTriple(c, prop, triple{base.key, m, base.sig}, vs, zip, "dense-msglen-"+name, shapes)
 			}
 			compareTriple(c, prop, triple{base.key, append(append([]byte{}, msg...), byte(l)), base.sig}, vs, zip, "dense-msglen-plus1", one)
+			if l > 1<<17 {
+				// a byte changed just below / at every multiple of 2^20 inside the message, and in the middle
+				for _, at := range []int{l / 2, l/2 - 1, 1<<20 - 1, 1 << 20, 1<<21 - 1, 1<<22 - 1, 1<<22 - 64, 1 << 22, 3<<19 - 1, 1<<23 - 1} {
+					if at >= 0 && at < l {
+						m := append([]byte{}, msg...)
+						m[at] ^= 0x10
+						compareTriple(c, prop, triple{base.key, m, base.sig}, vs, zip, "dense-msglen-inner-byte", nil)
+					}
+				}
+			}
 			if l%thin == 0 && ((l/thin+vi)%4 == 0 || vi == 0) {
 				alt("plus32", append(append([]byte{}, msg...), msgLen(32, l)...))
 				if l > 0 {
